@@ -684,7 +684,32 @@ func observeCallbackExact(c *Ctx, id string) {
 			noinl[fname(m)] = true
 		}
 	}
-	classes := []string{"ErrUnambiguousTimeout", "ErrTemporaryFailure", "ErrBusy", "other"}
+	// error classes: the three transient ones, every further error the callback asks about by name (each must be
+	// fatal: only the three are survivable), and an error that is none of them
+	transientClasses := []string{"ErrUnambiguousTimeout", "ErrTemporaryFailure", "ErrBusy"}
+	classes := append([]string{}, transientClasses...)
+	for _, f := range withAnon(cb) {
+		allInstrs(f, func(in ssa.Instruction) {
+			cc := callOf(in)
+			if cc == nil || calleeName(cc) != "errors.Is" || len(cc.Args) != 2 {
+				return
+			}
+			o := strings.TrimSuffix(w.Origin(cc.Args[1]), ")")
+			if k := strings.LastIndex(o, "."); k >= 0 {
+				o = o[k+1:]
+			}
+			known := false
+			for _, cs := range classes {
+				if cs == o {
+					known = true
+				}
+			}
+			if !known && o != "" {
+				classes = append(classes, o)
+			}
+		})
+	}
+	classes = append(classes, "other")
 	h := &Harness{Fn: cb, Quiet: quietLog, NoInline: noinl, MaxSteps: 6000,
 		Bools:   []string{rN + "." + rmClosed, errP + "==nil", "found", "outdated"},
 		Choices: map[string]int{"class": len(classes), "ncopies": 3, "replica": 2},
@@ -762,8 +787,8 @@ func observeCallbackExact(c *Ctx, id string) {
 			return fmt.Sprintf("the round's wait group is signalled %d times (first effect: %v) — the observe round would hang or panic", len(done), order)
 		}
 		stale := st.B(rN+"."+rmClosed) || !st.Eq(rN+".activeGroupID", genN)
-		transient := !st.B(errP+"==nil") && st.C("class") < 3
-		fatal := !st.B(errP+"==nil") && st.C("class") == 3
+		transient := !st.B(errP+"==nil") && st.C("class") < len(transientClasses)
+		fatal := !st.B(errP+"==nil") && st.C("class") >= len(transientClasses)
 		quiet := len(sets)+direct+len(disp)+len(uuidStores) == 0
 		switch {
 		case stale:
@@ -781,7 +806,7 @@ func observeCallbackExact(c *Ctx, id string) {
 			return ""
 		case fatal:
 			if !out.Panicked {
-				return "an unexpected observe error is swallowed"
+				return "an unexpected observe error (" + classes[st.C("class")] + ") is swallowed"
 			}
 			return ""
 		}
@@ -2468,15 +2493,22 @@ func consumerChain(c *Ctx, id string, start, newDcp *ssa.Function) {
 	// the simple consumer calls the listener once with its own argument
 	c.see(ce)
 	n, okArg := 0, true
-	allInstrs(ce, func(in ssa.Instruction) {
-		if cc := callOf(in); cc != nil && strings.HasSuffix(w.Origin(cc.Value), "recv."+lisField) {
-			n++
-			_, plain := in.(*ssa.Call)
-			if !plain || len(cc.Args) != 1 || len(ce.Params) != 2 || w.Origin(cc.Args[0]) != w.Origin(ce.Params[1]) || len(guardsOf(in.Block())) != 0 {
-				okArg = false
+	for _, f := range withAnon(ce) {
+		// (closures and deferred functions included: a retry in a recover handler is a second call)
+		allInstrs(f, func(in ssa.Instruction) {
+			cc := callOf(in)
+			if cc == nil {
+				return
 			}
-		}
-	})
+			if o := w.Origin(cc.Value); strings.HasSuffix(o, "recv."+lisField) || strings.HasSuffix(o, "."+lisField) && f != ce {
+				n++
+				_, plain := in.(*ssa.Call)
+				if f != ce || !plain || len(cc.Args) != 1 || len(ce.Params) != 2 || w.Origin(cc.Args[0]) != w.Origin(ce.Params[1]) || len(guardsOf(in.Block())) != 0 {
+					okArg = false
+				}
+			}
+		})
+	}
 	c.Check(n == 1 && okArg, id, "consumer:listener-called", ce.Pos(), "the simple consumer calls the listener once, unconditionally, with the event it was given", "the simple consumer does not call the user's listener exactly once with the event it was given: events are lost or duplicated between the stream and the application")
 	// NewSimpleConsumer keeps the listener
 	c.see(simple)
@@ -2562,4 +2594,39 @@ func consumerChain(c *Ctx, id string, start, newDcp *ssa.Function) {
 		}
 	}
 	c.Check(seen == 2 && bad == "", id, "consumer:to-stream", nsPos.Pos(), "NewStream receives the stored consumer and the table resolved from the configured scope and collection names", "NewStream receives"+bad+" (expected the stored consumer and GetCollectionIDs(config.ScopeName, config.CollectionNames))")
+}
+
+// consumerChainRule: the consumer chain as a rule of its own (C03).
+func consumerChainRule(c *Ctx, id string) {
+	var start, newDcp *ssa.Function
+	for _, fn := range c.W.ModFuncs {
+		switch fname(fn) {
+		case "(*dcp.dcp).Start":
+			start = fn
+		case "dcp.newDcp":
+			newDcp = fn
+		}
+	}
+	c.need(start != nil && newDcp != nil, id, "dcp.Start / newDcp")
+	consumerChain(c, id, start, newDcp)
+}
+
+// discoveryClosedOnlyByClient (C09): VBucketDiscovery.Close is called from the client's close path only.
+func discoveryClosedOnlyByClient(c *Ctx, id string) {
+	w := c.W
+	n := 0
+	bad := ""
+	for _, fn := range w.ModFuncs {
+		allInstrs(fn, func(in ssa.Instruction) {
+			cc := callOf(in)
+			if cc == nil || !cc.IsInvoke() || cc.Method.Name() != "Close" || recvTypeName(cc.Value.Type()) != "VBucketDiscovery" {
+				return
+			}
+			n++
+			if r := rootFn(fn); pkgOfFn(r) == "" || strings.HasSuffix(pkgOfFn(r), "/stream") {
+				bad += " " + fname(fn) + "@" + w.pos(in.Pos())
+			}
+		})
+	}
+	c.Check(n > 0 && bad == "", id, "discovery-close", 0, fmt.Sprintf("%d call(s) of VBucketDiscovery.Close, none from package stream", n), "the stream closes the vBucket discovery:"+bad+" — the first rebalance unsubscribes the membership and every later partition is computed from a frozen numbering")
 }
